@@ -9,7 +9,7 @@
    over ALL node lists (any length: the batched path beyond 50 nodes is part of
    [assignments]), all metric maps and all scheduler lists. *)
 From Coq Require Import ZArith List Bool QArith Sorted.
-From V Require Import C17.Model C17.Laws C17.Lemmas.
+From V Require Import C17.Model C17.Laws C17.Lemmas C17.LawLemmas.
 Import ListNotations.
 Open Scope Z_scope.
 
@@ -145,6 +145,84 @@ Theorem C17_law_eligible_model : forall nodes m specs res,
   assignments nodes m specs = Some res -> law_eligible nodes m specs res = true.
 Proof. exact law_eligible_model. Qed.
 Print Assumptions C17_law_eligible_model.
+
+(* the order law (104), the count law (106) and the tolerance order law (108)
+   accept the model's result for ALL inputs *)
+Theorem C17_law_order_model : forall nodes m specs res,
+  assignments nodes m specs = Some res -> law_order nodes m specs res = true.
+Proof. exact law_order_model. Qed.
+Print Assumptions C17_law_order_model.
+
+Theorem C17_law_count_model : forall nodes m specs res,
+  assignments nodes m specs = Some res -> law_count nodes m specs res = true.
+Proof. exact law_count_model. Qed.
+Print Assumptions C17_law_count_model.
+
+Theorem C17_law_order_tol_model : forall nodes m specs res,
+  assignments nodes m specs = Some res -> law_order_tol nodes m specs res = true.
+Proof. exact law_order_tol_model. Qed.
+Print Assumptions C17_law_order_tol_model.
+
+(* --- "taken in descending weighted score order", against the whole object --- *)
+
+(* which nodes, in which order: the shard of scheduler [sp] IS the selector
+   chain applied to the stably score-sorted list of the nodes that pass all its
+   filters and were not taken by the schedulers configured before it — for every
+   cluster size ([assignments] takes the batched path above 50 nodes) *)
+Theorem C17_shard_exact : forall nodes m specs res pre sp post,
+  assignments nodes m specs = Some res ->
+  NoDup (map ss_name specs) -> specs = pre ++ sp :: post ->
+  let ch := chain_of specs (ss_name sp) in
+  In (ss_name sp, rlookup res (ss_name sp)) res /\
+  rlookup res (ss_name sp) =
+    map nname (run_selectors (selectors_of ch)
+      (sort_desc (total_score (mlookup m) ch)
+        (filter (pass_all (filters_of (mlookup m) ch))
+          (drop_assigned nname nodes (taken_from res pre []))))).
+Proof. exact shard_exact. Qed.
+Print Assumptions C17_shard_exact.
+
+(* no higher-scored eligible unassigned node was skipped: a node that passes the
+   filters, was not taken earlier and is not in the shard comes after EVERY node
+   of the shard in (score descending, position in the node list) order *)
+Theorem C17_shard_no_skip : forall nodes m specs res pre sp post p y,
+  assignments nodes m specs = Some res ->
+  NoDup (map nname nodes) -> NoDup (map ss_name specs) -> specs = pre ++ sp :: post ->
+  let ch := chain_of specs (ss_name sp) in
+  let l := rlookup res (ss_name sp) in
+  In p (eligible_of (mlookup m) ch (indexed nodes) (taken_from res pre [])) -> ~ In (nm p) l ->
+  In y (indexed nodes) -> In (nm y) l ->
+  precedes (total_score (mlookup m) ch) y p = true.
+Proof. exact shard_no_skip. Qed.
+Print Assumptions C17_shard_no_skip.
+
+(* --- identical inputs, identical assignments: independence from what Go iterates as a map --- *)
+
+(* the node-metric map: every listing order of the same map gives the same assignments *)
+Theorem C17_metrics_perm : forall nodes m m' specs,
+  NoDup (map fst m) -> Permutation.Permutation m m' ->
+  assignments nodes m specs = assignments nodes m' specs.
+Proof. exact assignments_metrics_perm. Qed.
+Print Assumptions C17_metrics_perm.
+
+(* the node list comes from the node lister (a Go map) unsorted: the assignments
+   are invariant under its order exactly as far as scores do not tie ... *)
+Theorem C17_assignments_node_perm_tie_free : forall nodes nodes' m specs,
+  NoDup nodes -> Permutation.Permutation nodes nodes' ->
+  (forall s, In s specs -> tie_free (total_score (mlookup m) (chain_of specs (ss_name s))) nodes) ->
+  assignments nodes m specs = assignments nodes' m specs.
+Proof. exact assignments_node_perm_tie_free. Qed.
+Print Assumptions C17_assignments_node_perm_tie_free.
+
+(* ... and NOT in general: two nodes, cap 1, listed in either order (known finding
+   C17-node-lister-order-breaks-ties, reproduced on the real lister) *)
+Theorem C17_node_order_refuted :
+  exists nodes nodes' m specs,
+    Permutation.Permutation nodes nodes' /\ NoDup (map nname nodes) /\
+    assignments nodes m specs = Some [(1, [1%positive])] /\
+    assignments nodes' m specs = Some [(1, [2%positive])].
+Proof. exact node_order_refuted. Qed.
+Print Assumptions C17_node_order_refuted.
 
 (* --- the batched path as it was before the fix (F6): refuted --- *)
 Theorem C17_bounded_old_batched_refuted :
